@@ -269,7 +269,10 @@ let () = iter_lines (fun line ->
     (* session: transfers = t/t/...; t = hdrs:body:parts (hdrs = hex,hex or -, body = hex or -) *)
     (try
       let c0 = mk_case ht doff chunks "-" "-" "-" "-" opts in
-      let fill = List.filter (fun i -> c0.flags0.(i) = 0 && c0.lens.(i) > 0) (List.init (Array.length c0.lens) (fun i -> i)) in
+      (* what may be filled: chunks missing at the start; with a re-scan step (r) also those flagged failed at the start *)
+      let rescans = String.contains transfers 'r' in
+      let fill = List.filter (fun i -> c0.lens.(i) > 0 && (c0.flags0.(i) = 0 || (rescans && c0.flags0.(i) = 2)))
+                   (List.init (Array.length c0.lens) (fun i -> i)) in
       let c = { c0 with ridx_t = fill } in
       let ts = List.map (fun t -> match String.split_on_char ':' t with
         | hd :: body :: parts :: rest when List.length rest <= 1 ->
